@@ -52,7 +52,7 @@ def snap(v, depth=0):
     if hasattr(v, "factory") and hasattr(v, "source"):            # Environment
         return ("environment", snap(v.factory, depth + 1), snap(list(getattr(v.source, "filters", [])), depth + 1))
     if hasattr(v, "_data") and isinstance(getattr(v, "_data"), dict):   # memory store/source/sink
-        return ("memory", tuple(sorted(v._data)))
+        return ("memory", tuple(sorted(v._data)), tuple(repr(f) for f in getattr(v, "filters", ())))
     if hasattr(v, "_filters"):
         return ("filterset", tuple(repr(f) for f in v._filters))
     return (type(v).__name__, repr(v)[:200])
@@ -102,6 +102,11 @@ def fresh(shape):
              rel=dict(type="relationship", spec_version="2.1", id="relationship--" + U + "3", created=TS, modified=TS, relationship_type="uses", source_ref=d["id"], target_ref="tool--" + U + "4"),
              defaults={"external_references": [copy.deepcopy(ext) if shape != "noncanonical-hashes" else {"source_name": "s", "url": "u"}], "object_marking_refs": [GREEN.id]},
              filters=[["labels", "in", list(sels)], ["name", "=", "n"]], opts={"pretty": True, "indent": 2})
+    from stix2 import Filter as _F, MemorySource as _MS
+    a["msrc"] = _MS([copy.deepcopy(d)], allow_custom=True)          # a source of the caller's, with filters of its own
+    a["msrc"].filters.add([_F(*f) for f in a["filters"]])
+    from stix2.datastore.filters import FilterSet as _FS
+    a["fset"] = _FS([_F(*f) for f in a["filters"]])                 # a FilterSet of the caller's, handed over as a query
     return a
 
 
@@ -199,6 +204,14 @@ def ops():
         .create(stix2.v21.Tool, name="t", external_references=a["d"]["external_references"] if not any(not isinstance(x, dict) for x in a["d"]["external_references"]) else a["defaults"]["external_references"]),
         "env:factory-create-twice": lambda a: (lambda f: (f.create(stix2.v21.Tool, name="t", object_marking_refs=[a["red"].id]), f.create(stix2.v21.Tool, name="u")))(
             a.setdefault("factory", ObjectFactory(object_marking_refs=a["defaults"]["object_marking_refs"], external_references=a["defaults"]["external_references"]))),
+        # a list-valued factory default met by a SINGLE value of the caller (appended to a copy, never to the factory's or the caller's list); the later plain create shows the defaults again
+        "env:factory-create-single-values": lambda a: (lambda f: (f.create(stix2.v21.Tool, name="t", object_marking_refs=a["red"].id), f.create(stix2.v21.Tool, name="t2", object_marking_refs=a["red"]),
+                                                                  f.create(stix2.v21.Tool, name="t3", external_references={"source_name": "single", "url": "u"}),
+                                                                  f.create(stix2.v21.Tool, name="t4", external_references=stix2.v21.ExternalReference(source_name="single-object", url="u")),
+                                                                  f.create(stix2.v21.Tool, name="u")))(
+            a.setdefault("factory", ObjectFactory(object_marking_refs=a["defaults"]["object_marking_refs"], external_references=a["defaults"]["external_references"]))),
+        "env:factory-create-no-append": lambda a: (lambda f: (f.create(stix2.v21.Tool, name="t", object_marking_refs=a["red"].id), f.create(stix2.v21.Tool, name="u")))(
+            ObjectFactory(object_marking_refs=a["defaults"]["object_marking_refs"], external_references=a["defaults"]["external_references"], list_append=False)),
         "env:environment-create-add": lambda a: (lambda e: (e.create(stix2.v21.Tool, name="t"), e.add(a["lst"][:1]), e.get(a["o"].id), e.add_filters(F(a))))(
             Environment(factory=ObjectFactory(created_by_ref="identity--" + U + "5"), store=MemoryStore())),
         "env:second-environment-defaults": lambda a: two_environments(a),
@@ -219,6 +232,12 @@ def ops():
         "store:fs-add-dict-and-text": lambda a: (lambda s: (s.add(a["rel"]), s.add(json.dumps(a["d"]))))(FileSystemStore(fsd(), allow_custom=True)),
         "store:navigation": lambda a: (lambda s: (s.add([a["o"], a["rel"]]), s.relationships(a["o"]), s.related_to(a["d"]), s.relationships(a["o"].id, relationship_type="uses", source_only=True),
                                                     s.creator_of(a["o"])))(MemoryStore()),
+        # the query handed over as the caller's own FilterSet (for instance another source's .filters) to sources that have filters attached
+        "store:query-with-callers-filterset": lambda a: (lambda fs, m, fsrc, c: (m.filters.add(Filter("type", "!=", "tool")), fsrc.filters.add(Filter("type", "!=", "identity")), c.add_data_sources([m, fsrc]),
+                                                                                 c.filters.add(Filter("name", "!=", "zzz")), m.query(fs), fsrc.query(fs), c.query(fs), m.query(fs), fs))(
+            a["fset"], MemorySource(a["lst"]), FileSystemStore(fsd(), allow_custom=True).source, CompositeDataSource()),
+        "store:query-with-another-sources-filters": lambda a: (lambda m1, m2: (m2.filters.add(Filter("type", "!=", "tool")), m2.query(m1.filters), m1.query(), list(m1.filters)))(
+            a["msrc"], MemorySource(a["lst"])),
         "store:composite": lambda a: (lambda c, l: (c.add_data_sources(l), c.get(a["o"].id), c.query(F(a)), c.remove_data_sources([x.id for x in l]), l))(
             CompositeDataSource(), a.setdefault("sources", [MemoryStore(a["lst"][:1]).source, MemorySource(a["lst"][1:])])),
         # -- filters / patterns / utils
@@ -286,7 +305,7 @@ def run_history(case, part):
         for k in set(a) - keys_before:        # objects the operation itself stored for later steps
             before[k] = snap(a[k])
         after = {k: snap(v) for k, v in a.items()}
-        changed = sorted(k for k in before if k in after and before[k] != after[k] and k not in ("factory", "env2", "sources", "flist", "vrefs"))
+        changed = sorted(k for k in before if k in after and before[k] != after[k] and k not in ("factory", "env2", "sources", "flist", "vrefs"))      # "fset" (the caller's own FilterSet) is NOT exempt
         if changed:
             part.violation("C13/argument-modified/%s/%s" % (name, "+".join(changed)), "an operation changed one of its arguments (or a value reachable from them)",
                            dict(case, at=i), "unchanged", {k: diff_hint(before[k], after[k]) for k in changed})
